@@ -110,9 +110,7 @@ pub fn run_and_compare(p: &Prog, budget: u64, drive: &[(u8, usize, usize)], out:
         xs.set_stack_limit(Some(2_000_000)).unwrap();
         let src = &p.sources[c];
         let (mode, fwd, back) = drive.get(c).copied().unwrap_or((0, 0, 0));
-        // (after a failed chunk the log still holds the partial effects of the failed instruction; what a back-step
-        // does with them is not part of this property, so no stepping back from then on)
-        let mode = if mode == 2 && failed_before { 1 } else { mode };
+        let _ = failed_before;
         if mode == 1 {
             out.class("chunk-submitted-by-compile+run");
         } else if mode == 2 {
